@@ -10,7 +10,6 @@ import (
 	"testing/synctest"
 	"time"
 
-	remoteexecution "github.com/bazelbuild/remote-apis/build/bazel/remote/execution/v2"
 	"pgregory.net/rapid"
 )
 
@@ -403,8 +402,4 @@ func (w *world) checkLearnerLinearity(retainedTasks int) {
 	if open > retainedTasks {
 		w.failf("C07: %d learners never received a terminal call, but only %d tasks are retained", open, retainedTasks)
 	}
-}
-
-func completionMatches(kind string, l *learnerRecord, resp *remoteexecution.ExecuteResponse) bool {
-	return true
 }
